@@ -76,6 +76,9 @@ func genPools(r *Rng, tier string, stat func(string)) []string {
 	}
 	// the historical witness: A reads a compressed message to its end, B starts one, A reads again
 	out = append(out, "hist=open:0:1|open:1:1|msg:0:600|readall:0|msg:1:600|again:0|readall:1")
+	// a small compressed message left after a prefix, an uncompressed one, another compressed one, and B in between
+	out = append(out, "hist=open:0:1|open:1:1|msg:0:40|read:0:1|plainnf:0:100|readall:0|msgnf:0:600|read:0:16|msg:1:600|readall:1|readall:0")
+	out = append(out, "hist=open:0:0|open:1:0|msg:0:40|read:0:1|plainnf:0:100|read:0:10|msgnf:0:40|read:0:1|msg:1:40|readall:1|readall:0|msgnf:0:600|msg:1:600|readall:0|readall:1")
 	// writers: a message abandoned half-way on A, then B and A write; A is closed under its writer, B writes again
 	out = append(out, "hist=open:0:0|open:1:0|wmsg:0:600|wmsg:1:600|wpart:0:5000|wmsg:1:700|closenow:0|wmsg:1:800|open:0:1|wmsg:0:900|wmsg:1:900")
 	out = append(out, "hist=open:0:1|open:1:1|open:2:0|wmsg:0:600|wmsg:1:600|wmsg:2:600|wmsg:0:40000|wpart:1:600|wmsg:2:700|closenow:1|wmsg:0:700|wmsg:2:700")
@@ -184,15 +187,26 @@ func runPools(kv map[string]string) string {
 			c.SetReadLimit(-1)
 			conns[ci] = &poolConn{c: c, raw: raw, snd: &sender{r: NewRng(uint64(ci + 1)), masked: true, flate: true, takeover: tk}}
 			go raw.ReadAllUntilClosed()
-		case "msg", "plain":
+		case "msg", "plain", "msgnf", "plainnf":
 			if pc == nil || pc.closed {
 				continue
 			}
 			n, _ := strconv.Atoi(f[2])
 			pc.snd.out = nil
-			pc.snd.message(2, poolPayload(ci, pc.nmsg, n), f[0] == "msg", "random", false, 1, false)
+			pc.snd.message(2, poolPayload(ci, pc.nmsg, n), strings.HasPrefix(f[0], "msg"), "random", false, 1, false)
 			pc.nmsg++
 			pc.raw.Send(pc.snd.out)
+			nofinish := strings.HasSuffix(f[0], "nf")
+			if nofinish && pc.rd != nil {
+				// try the next Reader straight away; if the library insists on the previous message being finished, do that
+				_, rd, err := pc.c.Reader(ctx)
+				if err == nil {
+					obs = append(obs, fmt.Sprintf("%d:next-without-finishing", ci))
+					pc.rd = rd
+					flushTrace(ci)
+					continue
+				}
+			}
 			if pc.rd != nil {
 				// the previous message was abandoned: finish it first, as the API requires (its bytes are checked too)
 				b, err := io.ReadAll(pc.rd)
